@@ -345,6 +345,10 @@ def operations(mesh, tier):
         op("flip.flip", lambda m: m.flip().flip(), post="identity-cells")
         mask = np.arange(mesh.ncells) % 2 == 0
         op("flip(mask).flip(mask)", lambda m, mask=mask: m.flip(mask).flip(mask), post="identity-cells")
+        # one masked flip (the repair the region's negative-volume warning recommends): the selected cells -- and only they --
+        # get the connectivity of the fully flipped mesh, whose covered volume has the opposite sign
+        for mlab_, mk_ in (("even", mask), ("first", np.arange(mesh.ncells) == 0), ("all", np.ones(mesh.ncells, dtype=bool)), ("list", list(np.arange(mesh.ncells) % 3 == 1))):
+            op(f"flip(mask={mlab_})", lambda m, mk_=mk_: (m.flip(mk_), m.flip(), np.asarray(mk_, dtype=bool)), post="flip-mask")
     # dual meshes (the meshes of the pressure / volume-ratio fields of mixed formulations): connectivity only, judged for what
     # they leave behind on the mesh they were derived from
     for ppc in (None, 1):
@@ -561,6 +565,17 @@ def run(case):
                     mesh.points[...] = pts_before
                     mesh.cells[...] = cells_before
                 if post == "input-only":
+                    continue
+                if post == "flip-mask":
+                    fm_, fa_, mk_ = new
+                    st["traces"] += 2
+                    if not (np.array_equal(fm_.cells[mk_], fa_.cells[mk_]) and np.array_equal(fm_.cells[~mk_], mesh.cells[~mk_]) and np.array_equal(fm_.points, mesh.points)):
+                        bad(sub + "/selected-cells", "flip(mask): the selected cells get the flipped connectivity, all other cells and the points are untouched", "differs", "selected rows of flip(), other rows unchanged")
+                    if mk_.any() and np.array_equal(fa_.cells, mesh.cells):
+                        bad(sub + "/flip-changes-nothing", "flip() returned the connectivity it was given", "unchanged", "reversed orientation")
+                    va_, v0_ = measure(fa_, base), measure(mesh, base)
+                    if va_ is not None and v0_ is not None and abs(va_[0] + v0_[0]) > 1e-10 * max(abs(v0_[0]), 1e-300):
+                        bad(sub + "/flipped-volume", "covered volume of the fully flipped mesh = - covered volume", float(va_[0]), float(-v0_[0]))
                     continue
                 nbase = new.cell_type if new.cell_type in LINEAR else base
                 ntol = mtol
